@@ -28,6 +28,8 @@ FAMILIES = [
     "multiyear_first",
     "near_constant",
 ]
+# families used by the hybrid-load checks only (the shared design-run pool keeps its composition)
+HYBRID_EXTRA = ["plateau_edges"]
 
 
 @functools.lru_cache(maxsize=4)
@@ -102,6 +104,28 @@ def make_loads(desc: dict) -> list:
             a, b = g.choice(24, 2, replace=False)
             q[MONTH_START[m] + 24 * d + a] = 45e3
             q[MONTH_START[m] + 24 * d + b] = -55e3
+    elif fam == "plateau_edges":
+        # long events at the edges of months: a one- or two-day plateau (so the equivalent peak duration is long, up to 48 h) that ends on
+        # the last day, the first day or a middle day of the month, and single-hour peaks in the last / first hour of a day
+        q = g.normal(0, 0.3e3, 8760) + float(g.choice([-1.0, 1.0])) * 2e3
+        for m in range(12):
+            nd = MONTH_DAYS[m]
+            for sign in (1.0, -1.0):
+                if g.random() < 0.25:
+                    continue
+                d = int(g.choice([nd - 1, nd - 1, 0, 1, int(g.integers(2, nd - 1))]))
+                P = sign * (30e3 + 1e3 * m)
+                kind = int(g.integers(0, 3))
+                h0 = MONTH_START[m] + 24 * d
+                if kind == 0:
+                    lo = max(0, h0 - 24)
+                    q[lo : h0 + 24] = 0.99 * P
+                    q[h0 + int(g.choice([23, 0, 12, int(g.integers(0, 24))]))] = P
+                elif kind == 1:
+                    q[h0 : h0 + 24] = 0.99 * P
+                    q[h0 + int(g.choice([23, 0, int(g.integers(0, 24))]))] = P
+                else:
+                    q[h0 + int(g.choice([23, 23, 0]))] = P
     else:
         raise ValueError(fam)
     q = np.asarray(q, dtype=float) * scale
